@@ -39,12 +39,40 @@ def mostCommon (l : List Str) : Option Str :=
     | none => some k
     | some b => if l.count k > l.count b then some k else some b) none
 
+/-- `re.match(r'^ACTION:(\w+):([\w-]+\.[\w-]+)$', name)`: the two groups.  No character class overlaps the
+    literal that follows it, so every repetition is the maximal run; `$` also matches before a final `\n`. -/
+def matchActionName (name : Str) : Option (Str × Str) :=
+  if !hasPrefix name (str "ACTION:") then none
+  else
+    let r0 := name.drop 7
+    let c := countWhile isWord r0
+    if c = 0 then none
+    else match r0.drop c with
+      | ':' :: r1 =>
+        let g := countWhile isWordDash r1
+        if g = 0 then none
+        else match r1.drop g with
+          | '.' :: r2 =>
+            let a := countWhile isWordDash r2
+            if a = 0 then none
+            else if r2.drop a = [] ∨ r2.drop a = ['\n'] then some (r0.take c, r1.take (g + 1 + a))
+            else none
+          | _ => none
+      | _ => none
+
+/-- the identifier line: `SECTION:name` verbatim, an action as `Class|group.action`, everything else with
+    its colon and annotations -/
+def identifierLine (b : BlockM) : Str :=
+  if startsWith b.name (str "SECTION:") then b.name
+  else match matchActionName b.name with
+    | some (cls, act) => cls ++ '|' :: act
+    | none =>
+      if b.annotations.isEmpty then b.name ++ [':']
+      else b.name ++ ':' :: ' ' :: serializeAnnotations b.annotations
+
 /-- the lines of the comment body, before ` * ` is put in front of them -/
 def bodyLines (b : BlockM) : List Str :=
-  let ident : Str :=
-    if startsWith b.name (str "SECTION") || startsWith b.name (str "ACTION") then b.name
-    else if b.annotations.isEmpty then b.name ++ [':']
-    else b.name ++ ':' :: ' ' :: serializeAnnotations b.annotations
+  let ident : Str := identifierLine b
   let params := (b.params.map (fun e => serializeParameter e.2)).flatten
   let desc := if truthy b.description then [] :: splitChar '\n' (b.description.getD []) [] else []
   let tags := if b.tags.isEmpty then [] else [] :: (b.tags.map (fun e => serializeTag e.2)).flatten
